@@ -135,7 +135,7 @@ class Run:
             if self.corr_bad:
                 k, q, a, m = self.corr_bad[0]
                 msg = (f"correspondence broken: implementation and model disagree on {len(self.corr_bad)} answers; "
-                       f"first: case {k[0]} #{k[1]} {' '.join(q)} impl={a!r} model={m!r}; the property's oracle found no failing input")
+                       f"first: case {k[0]} #{k[1]} {' '.join(map(str, q))} impl={a!r} model={m!r}; the property's oracle found no failing input")
                 v.violation("correspondence", msg, self._corr_replay(k, q, a, m), has_input=False)
             elif self.broken:
                 msg = "proof obligation / tie no longer checks: " + self.broken[0]
@@ -167,7 +167,7 @@ class Run:
 
     def _corr_replay(self, k, q, a, m):
         c = self.last_cases
-        return (f"# correspondence that no longer checks: impl vs model on query #{k[1]} `{' '.join(q)}`\n"
+        return (f"# correspondence that no longer checks: impl vs model on query #{k[1]} `{' '.join(map(str, q))}`\n"
                 f"# impl : {a}\n# model: {m}\n" + (c.replay_text(k[0]) if c else ""))
 
 
